@@ -272,6 +272,16 @@ static void run_mtmv(int which, int n, int th, int c, int fam, dvector **out_fre
   }
   KEY(key, "coverage-sentinel", fn, cl); JUDGE(untouched == 0, key, "%s(%d x %d) with %d threads into a sentinel-filled output: %d element(s) untouched", fn, n, c, th, untouched);
   KEY(key, "value-sentinel", fn, cl); JUDGE(odd == 0, key, "%s(%d x %d) with %d threads into a sentinel-filled output: %d element(s) are neither assigned nor accumulated once", fn, n, c, th, odd);
+  /* missing-coded operands: the sequential kernels skip a term whose matrix OR vector factor carries the missing code;
+   * the threaded kernel must return the single-threaded result for such operands too */
+  if (n > 0 && c > 0) {
+    v->data[c / 2] = MISSING; if (which == 0) m->data[n / 2][0] = MISSING; else m->data[0][n / 2] = MISSING;
+    dvector *pm = hv_new(n, NULL), *pq = hv_new(n, NULL);
+    mt(m, v, pm); st(m, v, pq); vx_transition(2); race_check_dv(fn, cl, pm, NULL);
+    double dm = 0; for (int i = 0; i < n; i++) dm = fmax(dm, fabs(pm->data[i] - pq->data[i]) / (64.0 * DEPS * (c + 2) * (double)bnd[i] + 1e-300));
+    KEY(key, "mt-vs-st-missing", fn, cl); JUDGE(dm <= 2.0, key, "%s vs sequential with a missing-coded matrix cell and vector element (%d x %d, %d threads): %g x tolerance", fn, n, c, th, dm);
+    DelDVector(&pm); DelDVector(&pq);
+  }
   free(ref); free(bnd); DelMatrix(&m); DelMatrix(&vm); DelDVector(&v); DelDVector(&p2); DelDVector(&ps); DelDVector(&pp);
   if (out_free) *out_free = p; else { vx_outcome(hv_hash(p, (uint64_t)(100 + which))); DelDVector(&p); }
 }
